@@ -244,6 +244,14 @@ func Delete() {
 	} else {
 		tapBound()
 	}
+	// known finding C05-rebase-overlap: the first message of a segment is deleted
+	// while others survive (the segment is renamed to a new base) and the process
+	// dies before the old segment is removed
+	firstPicked := false
+	if _, ok := set[l.Segs[si].Recs[0].Off]; ok {
+		firstPicked = true
+	}
+	vrt.Known("C05-rebase-overlap", crashed && firstPicked && ndel < len(l.Segs[si].Recs))
 	ro := l.Options()
 	ro.Recover = true
 	lg, err := klevdb.Open(dir, ro)
